@@ -197,6 +197,8 @@ class ExcelCompiler:
 
         def cell_value(a_cell):
             if a_cell.formula and a_cell.formula.python_code:
+                if a_cell.is_cse:
+                    return '={%s}' % a_cell.formula.python_code
                 return '=' + a_cell.formula.python_code
             elif isinstance(a_cell.value, np.float64):
                 return float(a_cell.value)
@@ -916,7 +918,13 @@ class ExcelCompiler:
 
             elif cell.python_code:
                 self.log.debug(f"Evaluating: {address}, {cell.python_code}")
-                value = self.eval(cell)
+                if cell.is_cse:
+                    # CSE Array Formula in one cell: the top left of the result
+                    value = self.eval(cell, cell.address)[0][0]
+                    if value is None:
+                        value = 0
+                else:
+                    value = self.eval(cell)
                 if is_address(value):
                     # eval produced an address (aka: a reference)
                     if value.is_range:
@@ -1154,6 +1162,9 @@ class _CellBase:
     # a value of None which was read from the workbook, not set by a reset
     value_unknown = False
 
+    # a CSE Array Formula entered into this one cell
+    is_cse = False
+
     def __init__(self, address=None, formula='', excel=None):
         formula_is_python_code = excel is None or isinstance(
             excel, _CompiledImporter)
@@ -1260,6 +1271,9 @@ class _Cell(_CellBase):
         return cls.ctr
 
     def __init__(self, address, value=None, formula='', excel=None):
+        if formula and formula.startswith('={') and formula[-1] == '}':
+            self.is_cse = True
+            formula = '=' + formula[2:-1]
         super().__init__(address=address, formula=formula, excel=excel)
 
         self.value = value
